@@ -87,12 +87,22 @@ def refcheckCmd (path : String) : IO Unit := do
   | .err k m => out.putStrLn (Json.obj [("t", .str "loaderr"), ("k", .str k), ("m", .str m)]).render
   | .panic s => out.putStrLn (Json.obj [("t", .str "panic"), ("site", .str s)]).render
 
+/-- `f32 <file>`: one u32 bit pattern per line -> Rust's `Display` of that f32 (validation of Ink/Native F32.display). -/
+def f32Cmd (path : String) : IO Unit := do
+  let text ← IO.FS.readFile path
+  let out ← IO.getStdout
+  for l in text.splitOn "\n" do
+    match l.trimAscii.toString.toNat? with
+    | some n => out.putStrLn (F32.display (Float32.ofBits n.toUInt32))
+    | none => pure ()
+
 def main (args : List String) : IO UInt32 := do
   match args with
   | ["play", script] => playCmd script; pure 0
   | ["audit", path] => auditCmd path; pure 0
   | ["expr", path] => exprCmd path; pure 0
   | ["refcheck", path] => refcheckCmd path; pure 0
+  | ["f32", path] => f32Cmd path; pure 0
   | ["cli", path, mode, keep, inputs] => cliCmd path mode keep inputs; pure 0
   | "explore" :: path :: depth :: shuffle :: names => exploreCmd path depth.toNat! (shuffle == "shuffle") names; pure 0
   | ["pathprobe"] => pathProbeLoop (← IO.getStdin) (← IO.getStdout); pure 0
